@@ -701,8 +701,8 @@ pub fn run_c07(tier: &str) -> Outcome {
         ]
     } else {
         vec![
-            Cfg { n: 2, cap: 3, depth: 4, wall: Duration::from_secs(1500), labels: vec![0, 1, 2] },
-            Cfg { n: 1, cap: 1, depth: 5, wall: Duration::from_secs(600), labels: vec![0, 1] },
+            Cfg { n: 2, cap: 3, depth: 5, wall: Duration::from_secs(1500), labels: vec![0, 1, 2] },
+            Cfg { n: 1, cap: 1, depth: 6, wall: Duration::from_secs(600), labels: vec![0, 1] },
             Cfg { n: 3, cap: 5, depth: 3, wall: Duration::from_secs(900), labels: vec![0, 1, 2, 3] },
             Cfg { n: 16, cap: 17, depth: 3, wall: Duration::from_secs(900), labels: vec![0, 1] },
         ]
